@@ -37,6 +37,9 @@ type evalEnv struct {
 	depth int
 	// ext lets a rule give meaning to calls the evaluator does not model.
 	ext func(f *Fn, call *ast.CallExpr, recv Val, args []Val) (Val, bool)
+	// pre is asked before the arguments of a call are evaluated (for calls whose
+	// arguments are irrelevant and not evaluable, such as logging).
+	pre func(f *Fn, call *ast.CallExpr) (Val, bool)
 }
 
 type evalUndecided struct{ msg string }
@@ -51,6 +54,13 @@ type returned struct {
 // EvalFn runs f's body with the given parameter values and returns its results.
 // An unsupported construct yields an error: the caller must treat that as "undecided".
 func (f *Fn) EvalFn(args []Val, ext func(f *Fn, call *ast.CallExpr, recv Val, args []Val) (Val, bool)) (res []Val, err error) {
+	res, _, err = f.EvalFnWith(args, ext, nil, nil)
+	return
+}
+
+// EvalFnWith additionally takes a pre-hook and initial values for fields / other objects.
+// It also returns the final values of every variable / field touched.
+func (f *Fn) EvalFnWith(args []Val, ext func(f *Fn, call *ast.CallExpr, recv Val, args []Val) (Val, bool), pre func(f *Fn, call *ast.CallExpr) (Val, bool), init map[types.Object]Val) (res []Val, final map[types.Object]Val, err error) {
 	defer func() {
 		if r := recover(); r != nil {
 			if u, ok := r.(evalUndecided); ok {
@@ -60,7 +70,11 @@ func (f *Fn) EvalFn(args []Val, ext func(f *Fn, call *ast.CallExpr, recv Val, ar
 			panic(r)
 		}
 	}()
-	env := &evalEnv{f: f, vars: map[types.Object]Val{}, ext: ext}
+	env := &evalEnv{f: f, vars: map[types.Object]Val{}, ext: ext, pre: pre}
+	for k, v := range init {
+		env.vars[k] = v
+	}
+	final = env.vars
 	i := 0
 	for _, fld := range f.Type.Params.List {
 		for _, nm := range fld.Names {
@@ -76,12 +90,12 @@ func (f *Fn) EvalFn(args []Val, ext func(f *Fn, call *ast.CallExpr, recv Val, ar
 	}
 	r := env.block(f.Body.List)
 	if r == nil {
-		return nil, nil
+		return nil, final, nil
 	}
 	if r.ctl != "" {
 		undecided("stray %s", r.ctl)
 	}
-	return r.vals, nil
+	return r.vals, final, nil
 }
 
 func (e *evalEnv) block(list []ast.Stmt) *returned {
@@ -209,6 +223,15 @@ func (e *evalEnv) stmt(s ast.Stmt) *returned {
 		}
 		for i, l := range x.Lhs {
 			id, ok := l.(*ast.Ident)
+			if !ok {
+				// a field of the receiver / a parameter, treated as a variable
+				if se, isSel := ast.Unparen(l).(*ast.SelectorExpr); isSel {
+					if fv, isVar := e.f.Info.ObjectOf(se.Sel).(*types.Var); isVar && fv.IsField() {
+						id = se.Sel
+						ok = true
+					}
+				}
+			}
 			if !ok {
 				undecided("assignment to %s", types.ExprString(l))
 			}
@@ -711,6 +734,11 @@ func (e *evalEnv) expr(x ast.Expr) Val {
 			}
 			undecided("conversion to %s", tv.Type)
 		}
+		if e.pre != nil {
+			if v, ok := e.pre(e.f, x); ok {
+				return v
+			}
+		}
 		var args []Val
 		for _, a := range x.Args {
 			args = append(args, e.expr(a))
@@ -736,7 +764,7 @@ func (e *evalEnv) expr(x ast.Expr) Val {
 		callee := e.f.Callee(x)
 		if callee != nil {
 			if g := e.f.C.FnOfObj(callee); g != nil && e.depth < 8 {
-				sub := &evalEnv{f: g, vars: map[types.Object]Val{}, depth: e.depth + 1, ext: e.ext}
+				sub := &evalEnv{f: g, vars: map[types.Object]Val{}, depth: e.depth + 1, ext: e.ext, pre: e.pre}
 				i := 0
 				for _, fld := range g.Type.Params.List {
 					for _, nm := range fld.Names {
